@@ -307,7 +307,9 @@ func (c *Ctx) runShard(name string, idx int, sh *shard, race bool) error {
 		if bytes.Contains(stderr.Bytes(), []byte("DATA RACE")) {
 			kind = "Race"
 		}
-		ev := map[string]interface{}{"ev": kind, "case": id, "panic": kind + ": " + lastLines(stderr.String(), 3), "arch": sh.arch}
+		// the clause of the running check's own property that a case without a result violates
+		ev := map[string]interface{}{"ev": kind, "case": id, "panic": kind + ": " + lastLines(stderr.String(), 3), "arch": sh.arch,
+			"clauses": []string{c.Prop + ".returns"}}
 		b, _ := json.Marshal(ev)
 		out.Write(append(b, '\n'))
 		c.logf("worker %s in case %s (arch %d): %s", kind, id, sh.arch, firstLines(stderr.String(), 40))
